@@ -1,6 +1,6 @@
 (* Proofs/CitationsFile.v -- what the two readings store, in terms of the file *)
 From Pybtex Require Import Base.Prelude Base.PyChar Base.PyStr Model.Citations Spec.Citations
-  Proofs.CitationsBase Proofs.Citations Proofs.CitationsFiltered.
+  Proofs.CitationsBase Proofs.Citations Proofs.CitationsFiltered Proofs.CitationsMore Proofs.CitationsReports.
 
 Lemma found_like_in_file q E db : found_like q E (db_find q db) -> ed_mem q E = existsb (keyb q) (map fst db).
 Proof.
@@ -69,4 +69,33 @@ Proof.
   unfold command_read. destruct (command_read_raw db cites m) as [v rs]. cbn [fst snd strictly].
   split; [|split; [intros ->; reflexivity|reflexivity]].
   destruct rs; split; intros H; try discriminate; try congruence; reflexivity.
+Qed.
+(* a 'bad cross-reference' reported when the whole file is read is dangling in the file *)
+Lemma whole_dangling_file_lemma db cites m c p :
+  In (c, p) (badxref_reports (snd (select_unfiltered db cites m))) ->
+  (exists e, find (fun e => keyb c (fst e)) db = Some e /\ snd e = Some p) /\
+  existsb (keyb p) (map fst db) = false.
+Proof.
+  destruct (select_unfiltered_reports db cites m) as [_ ->]. cbn zeta.
+  set (E := bd_entries (read_db None db)). intros H. unfold dangling_of in H.
+  apply in_flat_map in H as (c0 & _ & H).
+  destruct (ed_get c0 E) as [[k [p0|]]|] eqn:Eg; try contradiction.
+  destruct (ed_mem p0 E) eqn:Em; [contradiction|]. destruct H as [[= <- <-]|[]].
+  split.
+  - pose proof (found_all db c0) as F. fold E in F. unfold db_find in F.
+    destruct (find (fun e => keyb c0 (fst e)) db) as [e|].
+    + exists e. split; [reflexivity|]. destruct F as (k' & F & _). rewrite Eg in F. now injection F as _ <-.
+    + cbn in F. rewrite ed_mem_get, Eg in F. discriminate.
+  - destruct (reading_lemma db) as (Hm & _). fold E in Hm. now rewrite <- Hm.
+Qed.
+
+(* the Python engine emits entry.key: a cited key is emitted under the citation list's spelling *)
+Lemma py_emitted_spelling_lemma db cites m k c :
+  consistent cites -> In k (fst (py_engine_raw db cites m)) -> In c cites -> keyb c k = true -> k = c.
+Proof.
+  intros Hcons Hk Hc Hck. rewrite py_engine_fst in Hk. apply in_map_iff in Hk as (x & <- & Hx).
+  unfold resolve in Hx. apply filter_In in Hx as [_ Hm].
+  set (E := bd_entries (read_db (Some cites) db)) in *.
+  unfold stored_key in *. rewrite ed_mem_get in Hm. destruct (ed_get x E) as [[k' cr]|] eqn:Eg; [|discriminate].
+  apply ed_get_some_key in Eg as [_ Hin]. exact (stored_spelling_consistent db cites k' cr c Hcons Hin Hc Hck).
 Qed.
